@@ -1119,7 +1119,7 @@ def str_method(I, recv, name, args, kwargs, node):
             if len(sv.parts) == 1 and isinstance(sv.parts[0], Text):
                 t = sv.parts[0]
                 return Str((Text(t.name, t.removed, True),))
-            if name == "rstrip":
+            if name == "rstrip" and not args:
                 return Str(sv.parts, True)
             return sv if isinstance(recv, Str) else recv
         if name == "splitlines":
